@@ -123,6 +123,7 @@ fn jar_case(rng: &mut Rng, rep: &mut Report) {
     if !injective(&exp.names, &universe) || !injective(&names_all, &universe) { rep.count("domain.skipped_rename_not_injective"); return; }
     let final_newline = rng.bool();
     let text = table_text(&rows, final_newline);
+    if std::env::var("C14_TRACE").is_ok() { eprintln!("TRACE jar {} {:016x} {}", rep.cur.1, rng::fnv_str(&text), present.join(",")); }
     let case = rep.cur.clone();
     let mut entries: Vec<(String, InEntry)> = vec![];
     for (name, c) in &bodies {
@@ -226,6 +227,7 @@ fn maps_case(rng: &mut Rng, rep: &mut Report, small: bool) {
     let names_all = new_names(&all_rows);
     if !injective(&names_all, &universe) { rep.count("domain.skipped_rename_not_injective"); return; }
     let text = table_text(&rows, rng.bool());
+    if std::env::var("C14_TRACE").is_ok() { eprintln!("TRACE maps {} {:016x}", rep.cur.1, rng::fnv_str(&text)); }
     let want_methods: Vec<(String, (String, String))> = rows.iter().filter_map(|r| r.method.clone().map(|m| (r.encl.clone(), m))).collect();
     let (m, tshapes) = gen_mappings(rng, &universe, &[], &want_methods, small);
     rep.eval();
